@@ -127,6 +127,10 @@ pub trait Property: Sync + Send {
     fn shrink_steps(&self) -> usize {
         150
     }
+    /// how many distinct new signatures are shrunk (the rest are reported unshrunk)
+    fn max_shrunk_signatures(&self) -> usize {
+        8
+    }
 }
 
 #[derive(Clone, Debug, serde::Deserialize)]
@@ -456,7 +460,7 @@ pub fn run_check<P: Property>(p: &P, tier: Tier) -> i32 {
         if violations.iter().any(|v| v.0 == sig) {
             continue;
         }
-        if k >= 8 {
+        if k >= p.max_shrunk_signatures() {
             // still report, but do not spend time shrinking
             let path = write_replay(id, &sig, &msg, &cases[idx], seed);
             violations.push((sig, msg, path));
